@@ -297,7 +297,11 @@ func (f *Frame) val(v ssa.Value, want types.Type) Val {
 		}
 		return g.zeroVal(t)
 	case *ssa.Global:
-		addr := g.globalAddr(c.Object())
+		pp := ""
+		if c.Pkg != nil {
+			pp = c.Pkg.Pkg.Path()
+		}
+		addr := g.globalAddrN(pp, c.Name(), c.Type().(*types.Pointer).Elem())
 		return Val{Typ: c.Type(), Comps: []Term{addr}}
 	case *ssa.Function:
 		n := "fn_" + sanitize(c.String())
